@@ -77,12 +77,7 @@ theorem step_inv (s : St) (line : List Char) (h : SInv s) : SInv (step s line) :
                 · simp only [List.mem_cons, List.mem_nil_iff, or_false] at ht; subst ht; exact hc
               · split
                 · exact ⟨hc, hd⟩
-                · split
-                  · exact ⟨hc, hd⟩
-                  · simp only
-                    split
-                    · exact ⟨hc, hd⟩
-                    · exact ⟨addKernel_inv _ _ _ _ hc, hd⟩
+                · exact ⟨addKernel_inv _ _ _ _ hc, hd⟩
 
 theorem foldl_inv : ∀ (lines : List (List Char)) (s : St), SInv s → SInv (lines.foldl step s)
   | [], s, h => h
